@@ -22,7 +22,7 @@ Not decided: that exit terminates, byte-exact file contents, behaviour of the us
 """
 from .lib.discard import result_fates, verdict, diverges
 from .lib.effects import Effects, outcomes, MUTATING
-from .lib.guards import conditions
+from .lib.guards import conditions, conditions_gated
 from .lib.paths import strip
 from .lib.value import vstr, walk
 from . import layer_env_common as L
@@ -81,7 +81,7 @@ def run(ctx, rep):
             rep.unproven('R2', 'dispatch/' + phase, w(rt), '%d call sites of the %s phase in libcnb_runtime' % (len(cs), phase))
             continue
         c = cs[0]
-        conds = conditions(rt, c.bb, sl)
+        conds = conditions_gated(prog, rt, c.bb, sl)
         desc_ok = any(cd.kind == 'variant' and cd.outcome == frozenset({'Ok'}) and strip(cd.subject)[0] == 'call'
                       and strip(cd.subject)[1] == 'libcnb::runtime::read_buildpack_descriptor' for cd in conds)
         api_ok = False
@@ -299,12 +299,34 @@ def run(ctx, rep):
                 continue
             e = es[0]
             top = e.chain[0] if e.chain else e.call
-            cds = conditions(rb, top.bb, sl)
-            some = [cd for cd in cds if cd.kind == 'variant' and cd.enum == 'std::option::Option' and cd.outcome == frozenset({'Some'}) and res_field(cd.subject, fld, exact=True)]
             data_ok = res_field(e.args[1], fld)
-            ok = bool(some) and data_ok and must_pass(rb, some[0].target, site.bb, top.bb) and verdict(result_fates(prog, top.fn, top)) == 'ok'
+            # "only if Some": a Some-decision on result.<fld> around the write — in libcnb_runtime_build or in the
+            # private helper the write was moved to — or the write sits in a closure that an Option combinator on
+            # result.<fld> runs with the payload (`launch.map_or(Ok(()), |l| write(l, ..))`)
+            from .lib.effects import guards_of
+            some = [(cd, subj) for cd, views, subj in guards_of(E, e) if cd.kind == 'variant' and cd.enum == 'std::option::Option'
+                    and cd.outcome == frozenset({'Some'}) and subj is not None and res_field(subj, fld, exact=True)]
+            some += [(cd, cd.subject) for cd in conditions(rb, top.bb, sl) if cd.kind == 'variant' and cd.enum == 'std::option::Option'
+                     and cd.outcome == frozenset({'Some'}) and res_field(cd.subject, fld, exact=True)]
+            implied = any(x[0] == 'unwrap' and res_field(x[1], fld, exact=True) for x in e.implied)
+            # "if Some": on the Some side every way to success passes the write (or the combinator always runs the closure)
+            top_must = any(x.bb == top.bb for x, _ in E.must_calls(rb, [site.bb]))
+            levels = list(e.chain) + [e.call]
+            if some:
+                cd = some[0][0]
+                lvl = next((c for c in levels if c.fn.path == cd.fn.path), None)
+                ends = [site.bb] if cd.fn.path == rb.path else cd.fn.return_blocks()
+                always = lvl is not None and all(must_pass(cd.fn, cd.target, b, lvl.bb) for b in ends)
+                always = always and (cd.fn.path == rb.path or top_must)
+            elif implied:
+                # the combinator call is on every path to success, and inside the closure it runs the write is
+                cl = next((c for c in levels if c.fn.kind == 'Closure'), None)
+                always = top_must and cl is not None and any(x.bb == cl.bb for x, _ in E.must_calls(cl.fn, [st.bb for st in E.sites(cl.fn)]))
+            else:
+                always = False
+            ok = (bool(some) or implied) and data_ok and always and verdict(result_fates(prog, top.fn, top)) == 'ok'
             rep.check(ok, 'R4', 'build/' + fname, e.where(), '%s written iff result.%s is Some, error propagated' % (fname, fld),
-                      '%s: guarded_by_Some(%s)=%s data_from_result=%s' % (fname, fld, bool(some), data_ok))
+                      '%s: guarded_by_Some(%s)=%s data_from_result=%s always_on_Some=%s' % (fname, fld, bool(some) or implied, data_ok, always))
         sb = [e for e in o.must if e.kind == 'WRITE' and e.forall is not None and strip(e.path)[0] == 'call' and strip(e.path)[1] == SBOM_PATH]
         got = {}
         for e in sb:
